@@ -210,6 +210,38 @@ func isFloatish(t types.Type) bool {
 	return ok && b.Info()&(types.IsFloat|types.IsComplex) != 0
 }
 
+// isPkgLevelVar: does the assigned expression (through selectors, indexing, dereferences) root in a package-level variable?
+// Writing one from a function body makes the result of a later call depend on what the process did before.
+func isPkgLevelVar(info *types.Info, e ast.Expr) bool {
+	for {
+		switch x := e.(type) {
+		case *ast.SelectorExpr:
+			if id, ok := x.X.(*ast.Ident); ok {
+				if _, isPkg := info.Uses[id].(*types.PkgName); isPkg {
+					e = x.Sel
+					continue
+				}
+			}
+			e = x.X
+		case *ast.IndexExpr:
+			e = x.X
+		case *ast.StarExpr:
+			e = x.X
+		case *ast.ParenExpr:
+			e = x.X
+		case *ast.Ident:
+			obj := info.Uses[x]
+			if obj == nil {
+				obj = info.Defs[x]
+			}
+			v, ok := obj.(*types.Var)
+			return ok && !v.IsField() && v.Pkg() != nil && v.Parent() == v.Pkg().Scope()
+		default:
+			return false
+		}
+	}
+}
+
 func scanFile(fset *token.FileSet, af *ast.File, info *types.Info, relFile, relDir string) []site {
 	var out []site
 	for _, decl := range af.Decls {
@@ -239,6 +271,19 @@ func scanFile(fset *token.FileSet, af *ast.File, info *types.Info, relFile, relD
 					if _, isChan := tv.Type.Underlying().(*types.Chan); isChan {
 						add("chan", x.X)
 					}
+				}
+			case *ast.AssignStmt:
+				if fn != "(package level)" && fn != "init" && x.Tok != token.DEFINE {
+					for _, l := range x.Lhs {
+						if isPkgLevelVar(info, l) {
+							add("global-write", x)
+							break
+						}
+					}
+				}
+			case *ast.IncDecStmt:
+				if fn != "(package level)" && fn != "init" && isPkgLevelVar(info, x.X) {
+					add("global-write", x)
 				}
 			case *ast.GoStmt:
 				add("go-stmt", x)
